@@ -2,7 +2,7 @@
    and unmixed.  Theorems only. *)
 From Coq Require Import ZArith List Bool.
 Import ListNotations.
-From KD Require Import C04.Model C04.Spec C04.Lists C04.Arith C04.Sides C04.Proofs C04.Corollaries C04.Example.
+From KD Require Import C04.Model C04.Spec C04.Lists C04.Arith C04.Sides C04.Proofs C04.Corollaries C04.Batches C04.Example.
 Open Scope Z_scope.
 
 (* the model IS the spec; in the spec every update is followed by
@@ -58,6 +58,16 @@ Theorem c05_zero_budget_one_pass : forall c mi, WF c mi -> zero_budget c = true 
   sampler_iter c mi 0 0 0 = Some (spec_eval c 0 (sides c)).
 Proof. exact zero_budget_one_pass. Qed.
 Print Assumptions c05_zero_budget_one_pass.
+
+(* no batch mixes datasets: the batches the batch sampler cuts are exactly the
+   stream's own single-dataset batches (tag = dataset), nothing lost or reordered *)
+Theorem c05_no_mixed_batch : forall c mi, WF c mi -> forall n e tr,
+  run c mi n (start_state c e) = Some tr ->
+  exists tagged : list (nat * list Z),
+    fst (batches (render tr)) = map snd tagged /\
+    flat_map (fun tb => map (pair (fst tb)) (snd tb)) tagged = stream_tags tr.
+Proof. exact no_mixed_batch. Qed.
+Print Assumptions c05_no_mixed_batch.
 
 Example c05_premises_satisfiable :
   WF ex_cfg ex_iter /\ wf_side ex_side /\ nth_error (sides ex_cfg) 1 = Some ex_side /\ 0 <= 3 < dslen ex_side.
